@@ -28,7 +28,8 @@ RULE = ("time lines enumerated from a grid: openHandshakeTimeout, closeHandshake
         "application (sendClose, also from onOpen) and by the LIBRARY failing the connection with failByDrop=False (reserved "
         "opcode, RSV bit, invalid UTF-8 text, message over maxMessagePayloadSize); every timer family also with a peer that no "
         "longer reads while our write buffer is non-empty (graceful transport close never / late completes: the drop must be "
-        "abortive); races of two timers (close while a "
+        "abortive); application using the frame streaming API with ping ticks inside / between streamed frames; a server that "
+        "keeps sending close / data / ping frames after the closing handshake instead of dropping TCP; races of two timers (close while a "
         "ping is pending, auto-ping falling due while CLOSING, peer close while a ping is pending, protocol violation "
         "while a ping is pending, delayed connection-lost after our loseConnection); plus seeded random time lines over "
         "the full option grid. After CLOSED every remaining timer is fired and the clock advanced by one hour. "
@@ -50,7 +51,11 @@ ASSUMPTIONS = [
     "write buffer; 'never' = peer not reading, the transport only goes away at the horizon); a deadline counts as met when "
     "connection-lost is deliverable by D, not when the close was requested; "
     "no octets are delivered to the endpoint after it asked the transport to close",
-    "the peer sends nothing after its own close frame",
+    "the peer sends nothing after its own close frame except in the 'reclose' family (close_again / data_again / ping_again); "
+    "deadlines are armed once and never re-armed by such frames",
+    "an auto-ping whose tick falls while the application is inside a streamed frame may come as late as one interval after "
+    "that frame was finished (the statement does not say whether it may interrupt the frame); the octets the application "
+    "streams are not parsed, library-written frames are",
 ]
 DECIDING = {
     "deadline_evaluated_open_server": 20, "deadline_evaluated_open_client": 20,
@@ -60,6 +65,10 @@ DECIDING = {
     "deadline_evaluated_failclose_server": 20, "deadline_evaluated_failclose_client": 20, "responsive_not_dropped_failclose": 10,
     "failclose_kinds": 8,
     # client behind an explicit HTTP proxy: proxy silent or half-answering (STATE_PROXY_CONNECTING) / answered, server silent
+    # auto-ping cadence judged on time lines where the application was inside a streamed frame around the tick; server-drop
+    # deadline judged although the server kept sending close frames after the closing handshake
+    "ping_intervals_measured_streaming": 100, "pings_written_mid_frame": 20, "streamed_frames_begun": 100,
+    "deadline_evaluated_drop_after_repeated_close": 50, "close_frames_after_peer_close": 100,
     # timer-initiated drops judged while the write buffer cannot be flushed (only an abortive close ends the connection)
     "timer_drops_unflushable_buffer": 100, "unflushable_timer_kinds": 7,
     "deadline_evaluated_open_proxy_pending": 20, "deadline_evaluated_open_proxy_answered": 20, "responsive_not_dropped_open_proxy": 10,
@@ -335,9 +344,66 @@ def fam_unflushed():
                                           {"on": "ping", "delay": 0.5, "do": "api_send", "first": 0, "count": 1}])
 
 
-FAMILIES = [("unflushed", fam_unflushed), ("open", fam_open), ("close", fam_close), ("peer-close", fam_peer_close), ("ping", fam_ping), ("races", fam_races)]
+def fam_stream():
+    """The application uses the frame streaming API; auto-ping ticks fall inside a streamed frame, between two frames of a
+    streamed message, or next to ordinary sendMessage() calls.  Every ping is answered: pings must keep coming at the
+    interval while OPEN (a ping that falls inside a frame may be postponed until one interval after the frame is finished)."""
+    for role in ("server", "client"):
+        for t0 in T0S:
+            for I, T in ((1, 0), (1, 2), (2, 1), (2, 5), (3, 0)):
+                o = opts_base(autoPingInterval=I, autoPingTimeout=T)
+                answer = {"on": "ping", "delay": 0.25, "do": "pong", "first": 0, "count": None}
+                for nth_tick in (1, 2):            # the frame spans the 1st / 2nd ping tick after onOpen
+                    tick = HS_AT + nth_tick * I
+                    for lead, tail in ((0.5, 0.5), (0.25, 1.25), (0.75, 0.25), (0.5, I + 0.5)):
+                        b, e = max(HS_AT + 0.25, tick - lead), tick + tail
+                        base = {"role": role, "opts": o, "t0": t0, "rules": [answer], "horizon": e + 3 * I + 3}
+                        mid = [[b + (e - b) * k / 4.0, "st_data"] for k in (1, 2, 3)]
+                        yield dict(base, fam="stream/tick-inside-frame",
+                                   acts=[[HS_AT, "hs"], [b, "st_begin"]] + mid + [[e, "st_end"]])
+                        yield dict(base, fam="stream/tick-between-frames",
+                                   acts=[[HS_AT, "hs"], [b, "st_frame"], [e, "st_frame"], [e + 0.25, "st_end"]])
+                        yield dict(base, fam="stream/sendMessage-only", acts=[[HS_AT, "hs"], [b, "api_send"], [e, "api_send"]])
+                        yield dict(base, fam="stream/two-frames-one-message",
+                                   acts=[[HS_AT, "hs"], [b, "st_begin"], [tick + 0.125, "st_frame"], [e, "st_begin"], [e + 0.5, "st_end"]])
+                # frame never finished: the peer answers what it gets, the connection stays open
+                yield {"fam": "stream/frame-left-open", "role": role, "opts": o, "t0": t0, "rules": [answer],
+                       "acts": [[HS_AT, "hs"], [HS_AT + 0.5, "st_begin"], [HS_AT + 1.5, "st_data"]], "horizon": HS_AT + 4 * I + 3}
 
-RKINDS = ["api_send", "hs", "hs_a", "hs_b", "close", "drop", "drop_clean", "pong", "pong_wrong", "pong_stale", "data", "dataf", "ping", "bad",
+
+def fam_reclose():
+    """After the closing handshake is complete the server does not drop TCP but keeps sending frames (close frames again,
+    data, pings) at intervals shorter / longer than serverConnectionDropTimeout: the drop deadline was armed ONCE."""
+    for t0 in T0S:
+        for scdt in (1, 2, 3, 5):
+            for initiator in ("we", "peer"):
+                for again in ("close_again", "data_again", "ping_again", "mixed"):
+                    for gap in (0.5, scdt - 0.25, scdt + 0.5):
+                        if gap <= 0:
+                            continue
+                        o = opts_base(closeHandshakeTimeout=2, serverConnectionDropTimeout=scdt)
+                        if initiator == "we":
+                            a0, r = [[HS_AT, "hs"], [CLOSE_AT, "api_close"], [1.25, "close"]], 1.25
+                        else:
+                            a0, r = [[HS_AT, "hs"], [CLOSE_AT, "close"]], CLOSE_AT
+                        kinds = ["close_again", "data_again", "ping_again"] if again == "mixed" else [again]
+                        acts = [[r + gap * (k + 1), kinds[k % len(kinds)]] for k in range(10) if r + gap * (k + 1) < r + 3 * scdt + 3]
+                        yield {"fam": "reclose/%s/%s" % (initiator, again), "role": "client", "opts": o, "t0": t0,
+                               "acts": a0 + acts, "horizon": r + 3 * scdt + 4}
+                        # control: the server drops in time after some repeated frames
+                        if gap < scdt - 1:
+                            yield {"fam": "reclose/%s/%s/then-drops" % (initiator, again), "role": "client", "opts": o, "t0": t0,
+                                   "acts": a0 + acts[:1] + [[r + scdt - 1.0, "drop"]], "horizon": r + 3 * scdt + 4}
+    # server role: it drops at once after the handshake; frames after that must not resurrect anything
+    for t0 in T0S:
+        o = opts_base(closeHandshakeTimeout=2)
+        yield {"fam": "reclose/server", "role": "server", "opts": o, "t0": t0, "lost_delay": 2.0,
+               "acts": [[HS_AT, "hs"], [CLOSE_AT, "close"], [1.0, "close_again"], [1.5, "data_again"]], "horizon": 6}
+
+
+FAMILIES = [("stream", fam_stream), ("reclose", fam_reclose), ("unflushed", fam_unflushed), ("open", fam_open), ("close", fam_close), ("peer-close", fam_peer_close), ("ping", fam_ping), ("races", fam_races)]
+
+RKINDS = ["st_begin", "st_data", "st_end", "st_frame", "close_again", "data_again", "close_again", "api_send", "hs", "hs_a", "hs_b", "close", "drop", "drop_clean", "pong", "pong_wrong", "pong_stale", "data", "dataf", "ping", "bad",
           "bad_rsv", "bad_utf8", "big", "api_close"]
 
 
@@ -466,7 +532,7 @@ def run_shard(params, R):
     idx = 0
     for name, gen in FAMILIES:
         for k, case in enumerate(gen()):
-            if (k + seed) % stride == 0:
+            if name in ("stream", "reclose", "unflushed") or (k + seed) % stride == 0:     # the small families always run in full
                 if idx % parts == part:
                     judge(case, R, fw)
                     R.count("enumerated_cases")
